@@ -19,9 +19,11 @@ LEVEL_TEXT = ("Every accepted solver x datafit x penalty composition is run on g
               "tolerances, working-set sizes, budgets (max_iter=0 included), strategies, intercept settings, storage "
               "formats and warm starts; each return that claims stop_crit <= tol is checked against a certificate "
               "recomputed from X, y and the returned values by an independent numpy model. Held = no converged "
-              "return violated it; the evidence lists converged returns per cell.")
+              "return violated it; the evidence lists converged returns per cell. Extra scenario families: wide problems "
+              "(60-320 features, working sets that must grow), straddle runs (p0=1, 1-3 epochs per outer iteration) and "
+              "tolerance sweeps (the exit visits every phase of the extrapolation cycle).")
 LEVEL_NOTE = ("trusted: vlib/refmath.py (subdifferentials, proxes, gradients); only returns with stop_crit <= tol decide; "
-              "problems n<=40, p<=25; violations below tol*1e-6 + 1e-10*(1+|grad|) are invisible")
+              "problems n<=120, p<=320; violations below tol*1e-6 + 1e-10*(1+|grad|) are invisible")
 RULE = ("cases = (solver, datafit, penalty, storage, intercept, strategy, tol, p0, budgets, warm start, alpha fraction, "
         "design class) drawn per cell from seeded generators, each converged case followed by restarts from its optimum "
         "with one coordinate / the intercept moved; non-trivial = the return claims convergence (stop_crit <= tol), "
